@@ -14,6 +14,11 @@ func TestSig(t *testing.T) {
 	}
 	setZone(3)
 	spec := CaseSpec{Prop: os.Getenv("VSIM_PROP"), Tier: "quick", Seed: envU64("VSIM_SIGSEED", 1)}
+	if v := os.Getenv("VSIM_SIGENUM"); v != "" {
+		var e EnumSpec
+		fmt.Sscanf(v, "%d,%d,%d,%d,%d,%d", &e.Kind, &e.At, &e.Pacing, &e.When, &e.Stall, &e.Code)
+		spec.Enum = &e
+	}
 	res := RunCase(t, spec)
 	for _, r := range res.Runs {
 		fmt.Println(scheduleSignature(r))
@@ -23,5 +28,9 @@ func TestSig(t *testing.T) {
 	}
 	for _, l := range observedLines(res) {
 		fmt.Println(l)
+	}
+	fmt.Println("violations:", res.Violations)
+	for _, a := range res.Runs[0].Results {
+		fmt.Printf("plan: stop=%v errcode=%d at=%d causes=%v\n", a.Plan.Stop, a.Plan.Stream.ErrCode, a.Plan.Stream.AtPacket, a.Causes)
 	}
 }
